@@ -26,7 +26,7 @@ def _finishes_enclosing(stmts, enclosing=()):
             return True
         if st[0] == "act" and _finishes_enclosing(st[8], enclosing + (st[1],)):
             return True
-        if st[0] in ("try",) and _finishes_enclosing(st[1], enclosing):
+        if st[0] in ("try", "handler") and _finishes_enclosing(st[1], enclosing):
             return True
         if st[0] == "reenter" and _finishes_enclosing(st[2], enclosing + (st[1],)):
             return True
